@@ -1044,6 +1044,52 @@ fn dial_at_limit(run: &mut Run, rng: &mut Rng, case: u64) -> anyhow::Result<()> 
     Ok(())
 }
 
+/// the boundary input of C03's third clause: the party answering at the dialled address is the caller itself
+fn self_dial(run: &mut Run, case: u64) -> anyhow::Result<()> {
+    let seed = run.seed ^ (case << 8) ^ 0x5e1f;
+    run.mark(&format!("scenario self_dial case {case} seed {}", run.seed));
+    let pinned = case % 2 == 1;
+    let rt = paused_rt();
+    let res: anyhow::Result<(Result<PeerId, String>, bool, bool, PeerId, bool)> = rt.block_on(async move {
+        let fabric = Fabric::new(seed);
+        let d = start_node(&fabric, seed, 1, config_idle(30_000))?;
+        let other = start_node(&fabric, seed, 2, config_idle(30_000))?;
+        let mut log = crate::peers::NodeLog::new(&d.net);
+        if case % 4 >= 2 {
+            d.net.connect(other.addr).await?;
+        }
+        let r = if pinned { tokio::time::timeout(Duration::from_secs(30), d.net.connect_with_peer_id(d.addr, d.id)).await } else { tokio::time::timeout(Duration::from_secs(30), d.net.connect(d.addr)).await };
+        let r = match r {
+            Err(_) => Err("hang".to_string()),
+            Ok(Err(e)) => Err(format!("{e:#}")),
+            Ok(Ok(p)) => Ok(p),
+        };
+        tokio::time::sleep(Duration::from_millis(500)).await;
+        let listed = d.net.peers().contains(&d.id);
+        log.pump();
+        let announced = log.events.iter().any(|e| matches!(e, anemo::types::PeerEvent::NewPeer(p) if *p == d.id));
+        let rpc_ok = match &r {
+            Ok(p) => tokio::time::timeout(Duration::from_secs(10), d.net.rpc(*p, anemo::Request::new(bytes::Bytes::from_static(b"me")).with_header("x-id", "self"))).await.map(|x| x.is_ok()).unwrap_or(false),
+            Err(_) => false,
+        };
+        Ok((r, listed, announced, d.id, rpc_ok))
+    });
+    drop(rt);
+    let (r, listed, announced, own, rpc_ok) = res?;
+    run.eval(&format!("self-dial {case}"), true);
+    run.count("self-dial", if r.is_ok() { "ok" } else { "refused" });
+    if let Ok(p) = &r {
+        // ("in the connected set at some instant before the call returns": listed now, or announced by NewPeer;
+        // the two ends of a self-connection are one QUIC connection, so the tie-break's close ends both)
+        let _ = rpc_ok;
+        if *p != own || (!listed && !announced) {
+            run.oracle_fail(json!({"kind": "connect returned Ok but the party returned is not in the caller's connected set", "scenario": "the caller dials its own address", "pinned": pinned,
+                "returned_own_identity": *p == own, "listed": listed, "announced": announced, "rpc_to_returned_party_ok": rpc_ok}));
+        }
+    }
+    Ok(())
+}
+
 fn common(run: &mut Run, which: &str) -> anyhow::Result<()> {
     crate::streams::install_panic_counter();
     let mut rng = Rng::new(run.seed);
@@ -1105,6 +1151,9 @@ fn common(run: &mut Run, which: &str) -> anyhow::Result<()> {
             }
             for i in 0..(if q { 12 } else { 300 }) {
                 dial_at_limit(run, &mut rng, 80_000 + i)?;
+            }
+            for i in 0..(if q { 4 } else { 40 }) {
+                self_dial(run, i)?;
             }
         }
         _ => {
